@@ -1,5 +1,6 @@
 import BoltonsVerif.Common
 import BoltonsVerif.C13.Model
+import BoltonsVerif.C13.Session
 /-
 C13 line protocol.  One line = one whole case (a function, the injected / expected
 lists, the options, and any number of calls):
@@ -16,6 +17,15 @@ Output (one line): `err <Error>` or
    D <def items> ; I <invocation items> (source text modulo white space) ; <call outcome>,<call outcome>…`
   call outcome: `E` (TypeError while binding), `?` (body did not evaluate), or
   `R<pos>/<kws>` (what `_call` received) followed, for plain wraps, by `=B<bound of f on that call>`.
+
+Sessions (`Session.lean`, run on the heap model):
+  `W <the 11 function fields> <sibling> <step>* <call>*`
+  sibling = `-` or `<defaults>;<kwdefaults>;<ann>;<ret>;<doc>;<module>` (a second function with the same
+  name and parameter names); F[0] = the function, F[1] = the sibling if any, then whatever the steps build;
+  step = `w<t>|<injected>|<expected>|<flags>` (update_wrapper on F[t]) / `b<t>|<ops>` (builder history on F[t]) /
+  `k<t>|<name>|<value or ->` (F[t].__kwdefaults__ edited in place: set / pop) / `n<t>|…` (same for __annotations__).
+  Output: `<step result>,… || S <sig> ; M <meta> ; A <ann> [; C <call outcomes>] || …` - one block per function
+  as it is at the END of the session (C only for functions built in the session).
 -/
 namespace C13.Driver
 open BV C13
@@ -202,9 +212,82 @@ def handleB (toks : List String) : String :=
     | _, _, _, _, _, _, _, _, _, _, _, _, _ => "bad-op"
   | _ => "bad-op"
 
+
+/-! sessions -/
+
+def stepReq? (s : String) : Option Req :=
+  let rest := (s.drop 1).toString
+  match s.front, splitOnChar rest '|' with
+  | 'w', [t, inj, exp, fl] =>
+    match t.toNat?, natList? inj, optPairs? exp, flags? fl with
+    | some t, some inj, some exp, some o => some (.wrap t inj exp o.1)
+    | _, _, _, _ => none
+  | 'b', [t, ops] =>
+    match t.toNat?, bops? ops with
+    | some t, some ops => some (.hist t ops)
+    | _, _ => none
+  | 'k', [t, k, v] =>
+    match t.toNat?, k.toNat?, optNat? v with
+    | some t, some k, some v => some (.setKwd t k v)
+    | _, _, _ => none
+  | 'n', [t, k, v] =>
+    match t.toNat?, k.toNat?, optNat? v with
+    | some t, some k, some v => some (.setAnn t k v)
+    | _, _, _ => none
+  | _, _ => none
+
+def isStepTok (s : String) : Bool :=
+  s.front = 'w' || s.front = 'b' || s.front = 'k' || s.front = 'n'
+
+def showRes : Res → String
+  | .built => "b"
+  | .err e => s!"e{showErr e}"
+  | .skip => "s"
+  | .edited => "m"
+
+def showFuncBlock (w : Func) (calls : Option (List Call)) : String :=
+  let anns := ",".intercalate ((paramNames w).map fun n => s!"{n}:{showOpt (get? n w.ann)}")
+  let asyS := if w.isAsync then "1" else "0"
+  let base := s!"S {showSig (sigOf w)} ; M {w.name} {showOpt w.doc} {showOpt w.module} {showOpt w.wrapped} {asyS} ; A {anns} r:{showOpt w.retAnn}"
+  match calls with
+  | none => base
+  | some cs => s!"{base} ; C {",".intercalate (cs.map (outcome w w false))}"
+
+def sibling? (s : String) (f : Func) : Option (Option Func) :=
+  if s = "-" then some none else
+  match splitOnChar s ';' with
+  | [d, kd, an, rt, doc, md] =>
+    match natList? d, pairs? kd, pairs? an, optNat? rt, optNat? doc, optNat? md with
+    | some d, some kd, some an, some rt, some doc, some md =>
+      some (some { f with ident := 2, defaults := d, kwdefaults := kd, ann := an, retAnn := rt, doc := doc, module := md })
+    | _, _, _, _, _, _ => none
+  | _ => none
+
+def handleW (toks : List String) : String :=
+  match toks with
+  | a :: d :: va :: ko :: kd :: vk :: an :: rt :: asy :: doc :: md :: sib :: rest =>
+    match natList? a, natList? d, optNat? va, natList? ko, pairs? kd, optNat? vk, pairs? an,
+          optNat? rt, asy.toNat?, optNat? doc, optNat? md, (rest.takeWhile isStepTok).mapM stepReq?,
+          (rest.dropWhile isStepTok).mapM call? with
+    | some a, some d, some va, some ko, some kd, some vk, some an, some rt, some asy, some doc,
+      some md, some reqs, some calls =>
+      let f : Func := ⟨1, 1, doc, md, a, va, ko, vk, d, kd, an, rt, asy != 0, none, []⟩
+      match sibling? sib f with
+      | none => "bad-op"
+      | some sb =>
+        let base := f :: sb.toList
+        let fin := run (St.init base) reqs
+        let blocks := fin.1.view.zipIdx.map fun (w, i) =>
+          showFuncBlock w (if i < base.length then none else some calls)
+        let res := if fin.2.isEmpty then "-" else ",".intercalate (fin.2.map showRes)
+        " || ".intercalate (res :: blocks)
+    | _, _, _, _, _, _, _, _, _, _, _, _, _ => "bad-op"
+  | _ => "bad-op"
+
 def handle (line : String) : String :=
   match words line with
   | "B" :: toks => handleB toks
+  | "W" :: toks => handleW toks
   | a :: d :: va :: ko :: kd :: vk :: an :: rt :: asy :: doc :: md :: inj :: exp :: fl :: calls =>
     match natList? a, natList? d, optNat? va, natList? ko, pairs? kd, optNat? vk, pairs? an,
           optNat? rt, asy.toNat?, optNat? doc, optNat? md, natList? inj, optPairs? exp, flags? fl,
